@@ -916,6 +916,14 @@ def call_method(eng, fobj, args, kwargs, fr, node):
                 eng.axiom(j(new.t) == concat(j(lst.t), item.t))
             eng.assign(tnode, new, fr)
             return VNONE
+        if attr == 'pop' and not args:
+            n = z3.Length(base.t)
+            eng.prove_internal('pop from empty list', n > 0, 'IndexError')
+            item = V(base.ty[1], base.t[n - 1])
+            eng.assign(tnode, V(base.ty, z3.Extract(base.t, 0, n - 1)), fr)
+            return item
+        if attr == 'remove':
+            raise_unsupported('list.remove')
         if attr == 'extend':
             other = args[0]
             lst = base
@@ -1204,6 +1212,10 @@ def apply_method_contract(eng, fi, c, args, kwargs, node):
     if c.extra.get('establishes_invariant', True):
         for ref in eng.st.ghost.get('inv_objects', {}).values():
             H.assume_invariant(eng, ref)
+    if not c.extra.get('no_guarantee'):
+        # the callee is an entry point of the same class: it guarantees the class's rely clauses
+        for ref in eng.st.ghost.get('inv_objects', {}).values():
+            H.assume_rely(eng, ref, old)
     return res
 
 
